@@ -18,12 +18,14 @@ fn main() {
     let tier = arg(&args, "--tier").unwrap_or_else(|| "quick".into());
     let seed: u64 = arg(&args, "--seed").and_then(|s| s.parse().ok()).unwrap_or(1);
     let out = arg(&args, "--out").expect("--out");
-    let _plan = arg(&args, "--plan");
+    let plan = arg(&args, "--plan");
     trace::silence_panics();
     let mut t = trace::Tracer::new(&out);
     t.only = arg(&args, "--only-sess");
     match suite.as_str() {
         "sm3" => suites::sm3::drive(&mut t, &tier, seed),
+        "sm4blk" => suites::sm4::drive_block(&mut t, &tier, seed, plan),
+        "sm4mode" => suites::sm4::drive_modes(&mut t, &tier, seed),
         _ => {
             eprintln!("unknown suite {}", suite);
             std::process::exit(2);
